@@ -275,4 +275,59 @@ def getSuffix (value : Str) : Str :=
     else if l = 2 then (if u then "ULL".toList else "LL".toList)
     else []
 
+/-! ## Specification side: the literal grammar and its positional value
+
+`Lit` is the abstract syntax of an integer literal as the tokenizer hands it to MathLib (digit separators
+are already removed by the simplecpp lexer, a sign may have been glued on by the tokenizer):
+  sign? · (decimal | 0x hex | 0 octal | 0b binary) digits · suffix?
+`render` is its spelling, `value` its mathematical value (Σ dᵢ·rⁿ⁻¹⁻ⁱ, negated under a minus sign). -/
+
+inductive Base | dec | hex | oct | bin
+  deriving DecidableEq, Repr, Inhabited
+
+def Base.radix : Base → Nat
+  | .dec => 10 | .hex => 16 | .oct => 8 | .bin => 2
+
+def Base.isDigit : Base → Char → Bool
+  | .dec => CharLit.isDigit | .hex => isXDigit | .oct => isOctDigit | .bin => isBinDigit
+
+def Base.pfx (upper : Bool) : Base → Str
+  | .dec => [] | .hex => ['0', if upper then 'X' else 'x'] | .oct => ['0'] | .bin => ['0', if upper then 'B' else 'b']
+
+structure Lit where
+  /-- `none`, `some false` = '+', `some true` = '-' -/
+  sign : Option Bool
+  base : Base
+  /-- upper-case prefix letter (`0X`, `0B`) -/
+  upper : Bool
+  digits : Str
+  suffix : Str
+  deriving DecidableEq, Repr, Inhabited
+
+def signStr : Option Bool → Str
+  | none => [] | some false => ['+'] | some true => ['-']
+
+def render (l : Lit) : Str := signStr l.sign ++ l.base.pfx l.upper ++ l.digits ++ l.suffix
+
+/-- well-formed: at least one digit, all digits of the base, suffix empty or accepted by the suffix machine -/
+def Lit.WF (l : Lit) : Bool :=
+  !l.digits.isEmpty && l.digits.all l.base.isDigit && (l.suffix.isEmpty || isValidIntegerSuffix l.suffix)
+
+/-- a decimal literal does not start with `0` unless it is `0` itself (otherwise the spelling is an octal literal) -/
+def Lit.canonical (l : Lit) : Bool :=
+  l.base != .dec || l.digits.head? != some '0' || l.digits == ['0']
+
+def Lit.magnitude (l : Lit) : Nat := positional l.base.radix l.digits
+def Lit.value (l : Lit) : Int := if l.sign = some true then -(l.magnitude : Int) else l.magnitude
+
+/-- the suffix set as a table: u l z | ul uz lu ll zu | ull llu i64 | ui64 (letters in either case) | _x… -/
+def specSuffix (s : Str) : Bool :=
+  match s with
+  | '_' :: _ :: _ => true
+  | [a] => isU a || isL a || isZ a
+  | [a, b] => (isU a && (isL b || isZ b)) || (isL a && (isU b || isL b)) || (isZ a && isU b)
+  | [a, b, c] => (isU a && isL b && isL c) || (isL a && isL b && isU c) || (isI a && b == '6' && c == '4')
+  | [a, b, c, d] => isU a && isI b && c == '6' && d == '4'
+  | _ => false
+
 end Cppcheck.MathLit
